@@ -563,6 +563,8 @@ def _r1_r2_fkm(ctx):
 def _r1_r2_fkm_nonlinear(ctx):
     prog = ctx.prog
     fi = prog.func("pylife.stress.rainflow.fkm_nonlinear:FKMNonlinearDetector._hcm_process_sample")
+    from ._hcm import require_recognised_dispatch
+    require_recognised_dispatch(fi)
     loops = [s for s in fi.node.body if isinstance(s, ast.While)]
     if len(loops) != 1:
         raise AnalysisError("_hcm_process_sample: while loop not found")
@@ -720,6 +722,8 @@ def _r3_conservation(ctx):
     # FKM nonlinear: iz moves with len(self._residuals)
     det = "pylife.stress.rainflow.fkm_nonlinear:FKMNonlinearDetector."
     ps = prog.func(det + "_hcm_process_sample")
+    from ._hcm import require_recognised_dispatch
+    require_recognised_dispatch(ps)
     cfg = CFG(ps.node)
     loop = [s for s in ps.node.body if isinstance(s, ast.While)][0]
 
